@@ -44,6 +44,9 @@ Exit status is always 0; the caller decides.
 """
 from __future__ import annotations
 
+_HTML = None
+_CLEAN_TEXT = None
+
 import argparse
 import importlib.util
 import itertools
@@ -192,6 +195,119 @@ def random_strings(rng: random.Random, count: int, extra: List[str]):
         yield "".join(parts)
 
 
+# ------------------------------------------------------------------------------------------
+# html cleaner: generated element trees with the expected visible text known from the generator
+# ------------------------------------------------------------------------------------------
+INLINE = ["i", "em", "b", "span", "u"]
+BLOCK = ["div", "blockquote", "section"]
+HIDDEN_RAW = ["script", "style"]
+WORD_ENTS = [("&amp;", "&"), ("&lt;", "<"), ("&gt;", ">"), ("&#167;", "\u00a7"), ("&sect;", "\u00a7"), ("&quot;", '"')]
+XML_WS = " \t\n"
+
+
+class _Gen:
+    def __init__(self, rng):
+        self.rng = rng
+        self.n = 0
+
+    def text(self):
+        """(serialised, decoded) text piece: a numbered word, optionally with an entity and surrounding XML whitespace"""
+        r = self.rng
+        if r.random() < 0.12:
+            ws = "".join(r.choice(XML_WS) for _ in range(r.randint(1, 3)))
+            return ws, ws
+        self.n += 1
+        ser = dec = f"w{self.n}"
+        if r.random() < 0.25:
+            e, d = r.choice(WORD_ENTS)
+            ser, dec = ser + e + "x", dec + d + "x"
+        pre = r.choice(["", "", " ", "\n", "  "])
+        post = r.choice(["", "", " ", "\n "])
+        return pre + ser + post, pre + dec + post
+
+    def children(self, depth, allow_block):
+        r = self.rng
+        out = []
+        for _ in range(r.randint(0, 4)):
+            x = r.random()
+            if x < 0.45 or depth >= 4:
+                out.append(("text",) + self.text())
+            elif x < 0.60:
+                tag = r.choice(HIDDEN_RAW)
+                self.n += 1
+                raw = r.choice([f"var h{self.n} = 'hidden';", f"p {{ color: h{self.n} }}", "", f"h{self.n} < 3 && y"])
+                out.append(("raw", tag, raw))
+            elif x < 0.68:
+                out.append(("void", r.choice(['<link rel="stylesheet" href="x.css">', "<br>", '<meta name="k" content="hidden">'])))
+            elif x < 0.72:
+                self.n += 1
+                out.append(("void", f"<!-- hidden comment h{self.n} -->"))
+            elif x < 0.88 or not allow_block:
+                out.append(("el", r.choice(INLINE), self.children(depth + 1, False)))
+            elif x < 0.94:
+                out.append(("el", "p", self.children(depth + 1, False)))
+            else:
+                out.append(("el", r.choice(BLOCK), self.children(depth + 1, True)))
+        return out
+
+
+def _serialise(children):
+    out = []
+    for c in children:
+        if c[0] == "text":
+            out.append(c[1])
+        elif c[0] == "raw":
+            out.append(f"<{c[1]}>{c[2]}</{c[1]}>")
+        elif c[0] == "void":
+            out.append(c[1])
+        else:
+            out.append(f"<{c[1]}>{_serialise(c[2])}</{c[1]}>")
+    return "".join(out)
+
+
+def _visible_nodes(children, acc):
+    """text nodes in document order; adjacent text pieces form ONE node (a comment, like any element, separates nodes)"""
+    cur = None
+    for c in children:
+        if c[0] == "text":
+            cur = (cur or "") + c[2]
+            continue
+        if cur is not None:
+            acc.append(cur)
+            cur = None
+        if c[0] == "el":
+            _visible_nodes(c[2], acc)
+    if cur is not None:
+        acc.append(cur)
+    return acc
+
+
+def html_cases(rng, count):
+    fixed = [
+        ("<div><p>w10<script>var x = 'hidden';</script>w11</p></div>", "w10 w11"),
+        ('<div><link rel="stylesheet" href="x.css">w15<p>w16</p></div>', "w15 w16"),
+        ("<div><style>p {}</style>w1 <i>w2</i><script>h</script> w3</div>", "w1  w2  w3"),
+        ("<html><head><style>h1 {}</style><script>h2</script></head><body><p>w1 &amp; w2</p></body></html>", "w1 & w2"),
+    ]
+    for f in fixed:
+        yield f
+    for _ in range(count):
+        g = _Gen(rng)
+        kids = g.children(0, True)
+        nodes = [t for t in _visible_nodes(kids, []) if t.strip(" \t\n\r")]
+        if not nodes:
+            continue
+        body = _serialise(kids)
+        shape = rng.random()
+        if shape < 0.6:
+            doc = f"<div>{body}</div>"
+        elif shape < 0.8:
+            doc = f"<html><head><style>hh0 {{}}</style><script>hh1</script><link rel=\"x\" href=\"hh2\"></head><body><div>{body}</div></body></html>"
+        else:
+            doc = f"<body><div>{body}</div></body>"
+        yield doc, " ".join(nodes)
+
+
 def load_cleaners(clean_path: Optional[str]):
     if clean_path:
         spec = importlib.util.spec_from_file_location("_c20_clean_under_test", clean_path)
@@ -199,6 +315,8 @@ def load_cleaners(clean_path: Optional[str]):
         spec.loader.exec_module(mod)                      # type: ignore[union-attr]
     else:
         import eyecite.clean as mod                       # the real module
+    global _HTML, _CLEAN_TEXT
+    _HTML, _CLEAN_TEXT = getattr(mod, "html", None), getattr(mod, "clean_text", None)
     return {name: getattr(mod, name) for name in INSTANCES}, getattr(mod, "__file__", None)
 
 
@@ -255,6 +373,25 @@ def main(argv: List[str]) -> int:
                 seen_long.add(s)
                 distinct += 1
 
+    # html cleaner: exactly the visible text nodes, in document order, joined by one space
+    n_html = 600 if ns.tier == "quick" else 20000
+    html_done = 0
+    if _HTML is not None:
+        for doc, expected in html_cases(random.Random(f"{ns.seed}/html"), n_html):
+            evaluations += 1
+            distinct += 1
+            html_done += 1
+            try:
+                got = _HTML(doc)
+                got2 = _CLEAN_TEXT(doc, ["html"]) if _CLEAN_TEXT is not None else got
+            except Exception as e:
+                report("html", "no_exception", doc, f"{type(e).__name__}: {e}", expected)
+                continue
+            if got != expected:
+                report("html", "visible_text_nodes_in_order", doc, got, expected)
+            elif got2 != got:
+                report("html", "clean_text_html_step", doc, got2, got)
+
     per = (4 ** (max_len + 1) - 1) // 3
     result.update(
         evaluations=evaluations, distinct=distinct,
@@ -265,7 +402,9 @@ def main(argv: List[str]) -> int:
                f"run-structured strings of length 9..200 over {len(set(RANDOM_ALPHABET))} characters incl. "
                "U+00A0 U+2003 U+0085 U+001C-001F U+1680 U+2028 U+3000 (and non-space U+200B, a lone surrogate, "
                "an astral letter); clauses: model_equal (Lean collapse transliteration), idempotent, "
-               "no_remaining_run, others_kept_in_order, erasure_equality"),
+               "no_remaining_run, others_kept_in_order, erasure_equality; html cleaner: "
+               f"{html_done} generated element trees (nested inline/block elements, script/style/link/meta/comment content, entities, "
+               "XML whitespace; depth <= 5) with the expected visible text nodes known from the generator"),
         violation_counts=counts, tier=ns.tier, seed=ns.seed, module=mod_file,
         python=sys.version.split()[0], seconds=round(time.time() - t0, 2))
     print(json.dumps(result, ensure_ascii=True))
